@@ -471,7 +471,11 @@ func ledgerGen(r *Rng, tier string, emit func(string)) {
 			continue
 		}
 		if profile != "c05" && h%8 == 3 {
-			legacyHistory(g)
+			if (h/8)%2 == 0 {
+				legacyHistory(g)
+			} else {
+				overflowHistory(g)
+			}
 			continue
 		}
 		genHistory(g, profile)
@@ -721,6 +725,96 @@ func legacyHistory(g *genCtx) {
 			signer: func(i int) cipher.SecKey { return ownerKey(ins[i]) }})
 		sb := forgeBlock(P, coin.Transactions{t}, when, 0, nil, secKey)
 		g.emit("exec F " + encodeBlock(&sb))
+	}
+}
+
+// overflowHistory (C03): outputs so large and old that "coins x seconds" no longer fits 64 bits.  That is NOT the
+// legacy exception: such an input has no computable hours and a block spending it must be refused — alone, in
+// front of or behind ordinary inputs, even when the outputs claim no hours at all.
+func overflowHistory(g *genCtx) {
+	r := g.r
+	g.prec, g.burn = 1, 2
+	g.emit("reset arbF=0 gc=9223372036854775808 gt=1000 burn=2 maxtxn=32768 maxblk=32768 prec=6 ubf=2 umax=32768 uprec=6")
+	if world == nil {
+		return
+	}
+	F := g.node("F")
+	uxs, headTime := spendable(F)
+	if len(uxs) == 0 {
+		return
+	}
+	gen := uxs[0]
+	outs := []coin.TransactionOutput{
+		{Address: keys[1].addr, Coins: 1 << 62, Hours: 10},
+		{Address: keys[2].addr, Coins: 1 << 61, Hours: 10},
+	}
+	used := uint64(1<<62 + 1<<61)
+	for i := 0; i < 4; i++ {
+		c := uint64(3+i) * 1e6
+		outs = append(outs, coin.TransactionOutput{Address: keys[(i+3)%6].addr, Coins: c, Hours: uint64(50 + r.Intn(100))})
+		used += c
+	}
+	if gen.Body.Coins <= used {
+		return
+	}
+	outs = append(outs, coin.TransactionOutput{Address: keys[0].addr, Coins: gen.Body.Coins - used, Hours: 1})
+	fan := buildTxn(txnSpec{ins: coin.UxArray{gen}, outs: outs, signer: func(int) cipher.SecKey { return ownerKey(gen) }})
+	sb := forgeBlock(F, coin.Transactions{fan}, headTime+10, 0, nil, secKey)
+	g.emit("exec F " + encodeBlock(&sb))
+	small := func() coin.UxArray {
+		var l coin.UxArray
+		us, _ := spendable(F)
+		for _, u := range us {
+			if u.Body.Coins < 100e6 {
+				l = append(l, u)
+			}
+		}
+		return l
+	}
+	big := func() coin.UxArray {
+		var l coin.UxArray
+		us, _ := spendable(F)
+		for _, u := range us {
+			if u.Body.Coins >= 1<<61 {
+				l = append(l, u)
+			}
+		}
+		return l
+	}
+	spend := func(ins coin.UxArray, when uint64, hours uint64) {
+		var coins uint64
+		for _, u := range ins {
+			coins += u.Body.Coins
+		}
+		t := buildTxn(txnSpec{ins: ins,
+			outs:   []coin.TransactionOutput{{Address: keys[r.Intn(6)].addr, Coins: coins, Hours: hours}},
+			signer: func(i int) cipher.SecKey { return ownerKey(ins[i]) }})
+		sb := forgeBlock(F, coin.Transactions{t}, when, 0, nil, secKey)
+		g.emit("exec F " + encodeBlock(&sb))
+	}
+	// aging: an ordinary spend 2^36..2^44 seconds later (accepted: hours are evaluated at the previous head)
+	if sm := small(); len(sm) > 0 && alive() {
+		_, ht := spendable(F)
+		spend(coin.UxArray{sm[0]}, ht+(uint64(1)<<uint(36+r.Intn(9))), 0)
+	}
+	for round := 0; round < 4 && alive(); round++ {
+		sm, bg := small(), big()
+		if len(bg) == 0 || len(sm) == 0 {
+			return
+		}
+		_, ht := spendable(F)
+		B, S := bg[r.Intn(len(bg))], sm[r.Intn(len(sm))]
+		sh, _ := S.CoinHours(ht)
+		switch r.Intn(4) {
+		case 0:
+			spend(coin.UxArray{B}, ht+1+uint64(r.Intn(1000)), 0)
+		case 1:
+			spend(coin.UxArray{S, B}, ht+1+uint64(r.Intn(1000)), []uint64{0, sh / 2, sh}[r.Intn(3)])
+		case 2:
+			spend(coin.UxArray{B, S}, ht+1+uint64(r.Intn(1000)), []uint64{0, sh / 2, sh}[r.Intn(3)])
+		default: // control: only ordinary inputs, must be accepted
+			spend(coin.UxArray{S}, ht+1+uint64(r.Intn(1000)), sh/2)
+		}
 	}
 }
 
@@ -988,7 +1082,8 @@ func (g *genCtx) forged(P, F *node) {
 		if t, ok := g.makeTxn(P, kind); ok {
 			sb := forgeBlock(P, coin.Transactions{t}, when, 0, nil, secKey)
 			g.execBoth(&sb)
-			return
+			when = g.nextWhen()
+			g.futureTime = when
 		}
 	}
 	for i := 0; i < n; i++ {
